@@ -142,9 +142,9 @@ func sweepCount(s *spec) int {
 	case s.Arity <= 1:
 		return 0
 	case s.Arity == 2:
-		return rec.Scale(14000, 0)
+		return rec.Scale(30000, 0)
 	default:
-		return rec.Scale(7000, 400000)
+		return rec.Scale(15000, 400000)
 	}
 }
 
@@ -196,7 +196,11 @@ func cellIndex(in any, args []arg) int {
 }
 
 func runTotal(t *testing.T) {
-	matrix := map[string][]byte{}
+	// Ownership: a whole arity-0/1 callable, or one (callable, input type)
+	// block of an arity-2 callable, belongs to one shard, so that the shard can
+	// publish the complete row of the cell matrix under its own evidence key
+	// (the driver keeps the first value of a key); arity >= 3 is sharded by
+	// tuple and has no matrix.
 	n := 0
 	complete := true
 	for si, s := range specs {
@@ -205,19 +209,33 @@ func runTotal(t *testing.T) {
 			continue
 		}
 		count := sweepCount(s)
-		var row []byte
-		if s.Arity <= 2 {
-			size := 6
-			for i := 0; i < s.Arity; i++ {
-				size *= 7
+		width := 1
+		for i := 0; i < s.Arity; i++ {
+			width *= 7
+		}
+		var rows [6][]byte
+		owned := func(ti int) bool {
+			switch {
+			case s.Arity <= 1:
+				return rec.Mine(si)
+			case s.Arity == 2:
+				return rec.Mine(1000 + si*6 + ti)
 			}
-			row = make([]byte, size)
+			return false
 		}
 		journalled := false
 		tuples(s, si, count, rec.Seed, func(in any, args []arg) {
-			n++
-			if !rec.Mine(n) {
-				return
+			ti := typeIdx(in)
+			if s.Arity <= 2 {
+				if !owned(ti) {
+					return
+				}
+				n++
+			} else {
+				n++
+				if !rec.Mine(n) {
+					return
+				}
 			}
 			if !journalled {
 				rec.Journal("total-sweep", sweepCase{Spec: s.ID, Count: count, Seed: rec.Seed})
@@ -248,37 +266,56 @@ func runTotal(t *testing.T) {
 				kinds = append(kinds, argKind(a))
 			}
 			rec.NT("total|" + s.ID + "|" + strings.Join(kinds, ",") + "|" + out)
-			if row != nil {
+			if s.Arity <= 2 {
+				if rows[ti] == nil {
+					rows[ti] = make([]byte, width)
+				}
 				f := byte(1)
 				if out == "error" {
 					f = 2
 				} else if out == "empty" {
 					f = 4
 				}
-				row[cellIndex(in, args)] |= f
+				rows[ti][cellIndex(nil, args)] |= f
 			}
 			if n%9973 == 0 {
 				rec.Sample(map[string]any{"sub": "total", "query": s.query(args), "in": univ.Show(in), "args": argKeys(args), "outcome": out})
 			}
 		})
-		if row != nil {
+		if s.Arity > 2 {
+			continue
+		}
+		text := func(row []byte) string {
+			if row == nil {
+				row = make([]byte, width)
+			}
+			out := make([]byte, len(row))
 			for i, b := range row {
-				if b == 0 {
-					row[i] = '.'
-				} else {
-					row[i] = '0' + b
+				out[i] = '.'
+				if b != 0 {
+					out[i] = '0' + b
 				}
 			}
-			matrix[s.ID] = row
+			return string(out)
+		}
+		if s.Arity <= 1 {
+			if rec.Mine(si) {
+				parts := make([]string, 6)
+				for ti := range rows {
+					parts[ti] = text(rows[ti])
+				}
+				rec.Extra("cells/"+s.ID, strings.Join(parts, " "))
+			}
+			continue
+		}
+		for ti := range rows {
+			if owned(ti) {
+				rec.Extra("cells/"+s.ID+"|"+jqTypes[ti], text(rows[ti]))
+			}
 		}
 	}
 	rec.Exhaustive("totality: all tuples of the 63-value universe for every arity-0/1 callable"+map[bool]string{true: " and every arity-2 callable", false: ""}[rec.Thorough()], complete)
-	cells := map[string]string{}
-	for k, v := range matrix {
-		cells[k] = string(v)
-	}
-	rec.Extra("cell_matrix_shard0", cells)
-	rec.Extra("cell_matrix_legend", "per callable one character per (input type x argument types) cell in row-major order over [null boolean number string array object (filter)]: '.' not reached by this shard, otherwise '0'+flags with 1 = some call returned values, 2 = some call raised a (catchable) error, 4 = some call returned empty")
+	rec.Extra("cells_legend", "cell coverage of the totality sweep. Key cells/<callable> (arity 0/1): six groups, one per input type in the order null boolean number string array object; key cells/<callable>|<input type> (arity 2): one group. A group has one character per tuple of argument types in row-major order over [null boolean number string array object filter] (arity 0: one character). '.' = no call judged in this cell (not sampled, guarded or over budget), otherwise '0'+flags: 1 = some call returned values, 2 = some call raised an error that was proven catchable, 4 = some call returned empty")
 
 	// random larger values
 	valGen := gen.Value(gen.Opt{Reps: true, Special: true, BadUTF8: true, MaxDepth: 2, MaxWidth: 3})
@@ -288,7 +325,7 @@ func runTotal(t *testing.T) {
 			live = append(live, s)
 		}
 	}
-	rec.Rapid(t, "total-random", rec.Scale(150000, 3000000), func(t *rapid.T) {
+	rec.Rapid(t, "total-random", rec.Scale(300000, 1500000), func(t *rapid.T) {
 		s := live[rapid.IntRange(0, len(live)-1).Draw(t, "spec")]
 		in := valGen.Draw(t, "in")
 		args := make([]arg, s.Arity)
